@@ -1318,7 +1318,12 @@ class ModelQuerySet(AbstractQuerySet):
                 nulled_columns.add(col_name)
                 continue
 
-            us.add_update(col, val, operation=col_op)
+            if col_op is None and isinstance(col, columns.Map):
+                # a plain keyword overwrites the container (see the docstring); a MapUpdateClause
+                # without a previous value would only put the given keys and keep all others
+                us.add_assignment(col, val)
+            else:
+                us.add_update(col, val, operation=col_op)
             updated_columns.add(col_name)
 
         if us.assignments:
